@@ -35,6 +35,9 @@ func (p *c13prop) Plan(tier string, seed int64) []core.Segment {
 	for _, t := range gen.ParserTypes {
 		segs = append(segs, core.Segment{Kind: "corpus:reset:" + t, N: 150}, core.Segment{Kind: "reset:" + t, N: 1800 * m}, core.Segment{Kind: "twin:" + t, N: 300 * m},
 			core.Segment{Kind: "zerostart:" + t, N: 1500 * m})
+		if t != "GSAP" && t != "OSAP" {
+			segs = append(segs, core.Segment{Kind: "margin:" + t, N: 1500 * m})
+		}
 	}
 	reps := int64(1)
 	if tier == "thorough" {
@@ -139,6 +142,60 @@ func (p *c13prop) Gen(kind string, idx int64, seed int64, tier string) core.Case
 		if class == "reset" {
 			cc.H1 = GenOps(r, 10+r.Intn(60), w)
 		}
+		if class == "margin" {
+			// the hash parsers load 8 bytes at every position, also from the
+			// margin behind the end of the data, which holds the bytes of the
+			// previous life (or the caller's spare capacity): short hash
+			// inputs, data arriving in pieces of a few bytes so that many
+			// positions are hashed while they touch the end of the data
+			switch typ {
+			case "HP", "BHP", "BUP":
+				c.InputLen = 2 + r.Intn(2)
+				c.HashBits = 2 + r.Intn(8)
+			default:
+				c.InputLen1 = 2 + r.Intn(2)
+				c.InputLen2 = c.InputLen1 + 1 + r.Intn(3)
+				c.HashBits1, c.HashBits2 = 2+r.Intn(8), 2+r.Intn(8)
+			}
+			if c.BufferSize < 40 {
+				c.BufferSize = 40 + r.Intn(100)
+				c.ShrinkSize = r.Intn(c.BufferSize)
+			}
+			c.BlockSize = 1 + r.Intn(24)
+			cc.Cfg = c
+			s1 := make([]byte, c.BufferSize)
+			for i := range s1 {
+				s1[i] = byte(0x80 + r.Intn(3))
+			}
+			cc.S1 = s1
+			cc.H1 = []POp{{K: "write", A: 1, B: 0}}
+			for i := 0; i < 1+c.BufferSize/c.BlockSize; i++ {
+				cc.H1 = append(cc.H1, POp{K: "parse"})
+			}
+			cc.S2 = gen.Family(r, []string{"rand2", "rand2", "rand3", "tworuns"}[r.Intn(4)], 300, c.Hint())
+			reset := POp{K: "reset", A: 0}
+			if r.Intn(2) == 0 {
+				reset = POp{K: "reset", A: 2, B: r.Intn(20), C: r.Intn(20)}
+			}
+			cc.H2 = []POp{reset}
+			for len(cc.H2) < 90 {
+				cc.H2 = append(cc.H2, POp{K: "write", B: 1 + r.Intn(6)})
+				for j, np := 0, 1+r.Intn(3); j < np; j++ {
+					op := POp{K: "parse"}
+					switch r.Intn(5) {
+					case 0, 1:
+						op.B = 1
+					case 2:
+						op.A = 1
+					}
+					cc.H2 = append(cc.H2, op)
+				}
+				if r.Intn(8) == 0 {
+					cc.H2 = append(cc.H2, POp{K: "shrink"})
+				}
+			}
+			return core.MkCase(p.id, kind, idx, seed, tier, cc)
+		}
 		if class == "zerostart" {
 			// 0x00 at buffer position 0 is indistinguishable from an unused
 			// table entry: the old stream starts with a zero run whose length
@@ -229,11 +286,12 @@ func (o *recObs) Observe(ev *PEvent, ps *PState) (string, string) {
 	return "", ""
 }
 
-func runRecorded(cfg gen.Cfg, pre *PCase, main *PCase) ([]string, error) {
+func runRecorded(cfg gen.Cfg, pre *PCase, main *PCase, poison byte) ([]string, error) {
 	ps, err := NewParserFor(cfg)
 	if err != nil {
 		return nil, err
 	}
+	ps.Poison = poison
 	if pre != nil {
 		RunHistory(ps, pre, &recObs{})
 		ps.cursor = 0
@@ -331,15 +389,17 @@ func (p *c13prop) Run(c *core.Case, st *core.Stats) []core.Violation {
 	}
 	main := &PCase{Cfg: cc.Cfg, Stream: cc.S2, Ops: cc.H2}
 	var pre *PCase
-	if class == "reset" || class == "zerostart" {
+	if class == "reset" || class == "zerostart" || class == "margin" {
 		pre = &PCase{Cfg: cc.Cfg, Stream: cc.S1, Ops: cc.H1}
 	}
-	a, nerr := runRecorded(cc.Cfg, pre, main)
+	// run A hands slices to Reset whose spare capacity holds garbage, run B
+	// slices with zeroed capacity: the bytes behind len(data) are not data
+	a, nerr := runRecorded(cc.Cfg, pre, main, 0xa5)
 	if nerr != nil {
 		st.Inc("config_rejected")
 		return nil
 	}
-	b, _ := runRecorded(cc.Cfg, nil, main)
+	b, _ := runRecorded(cc.Cfg, nil, main, 0)
 	st.Inc("pairs_compared")
 	st.Inc("pairs:" + class + ":" + cc.Cfg.Type)
 	if at, why := diffLogs(a, b); at >= 0 {
